@@ -4,7 +4,7 @@
 //! and by the type-level properties (C01/C02/C09/C10) to obtain generated text without a process per case.
 #[path = "/repo/crates/cli/src/builtins.rs"]
 #[allow(dead_code)]
-mod cli_builtins;
+pub mod cli_builtins;
 
 use graphql_builtins::generate_builtins;
 use nitrogql_ast::{OperationDocument, TypeSystemOrExtensionDocument, set_current_file_of_pos};
